@@ -24,6 +24,11 @@ def main():
     res, neutral = parse(sys.argv[1:])
     drills = json.load(open(os.path.join(V, "drills/drills.json")))
     ntr = {d["name"]: d for d in json.load(open(os.path.join(V, "drills/neutral.json")))}
+    nb = os.path.join(V, "neutral")
+    for name in sorted(os.listdir(nb)) if os.path.isdir(nb) else []:
+        mp = os.path.join(nb, name, "meta.json")
+        if os.path.exists(mp):
+            ntr[name] = {"what": "(sub-agent) " + json.load(open(mp)).get("what", "")}
     rows = []
     for d in sorted(drills, key=lambda d: (d["property"], d["name"])):
         r = res.get(d["name"])
@@ -41,6 +46,10 @@ def main():
         first = r[2] if r else (m.get("check_run", {}).get("summary", [""])[0].split(";")[0].strip())
         first = re.sub(r"^\d+s\s+", "", first)
         seeded.append("| %s | %s | %s | %s |" % (name, m.get("needs_to_manifest", "").replace("|", "/"), status, first.replace("|", "/")))
+    last = {}
+    for name, prop, status in neutral:
+        last[(name, prop)] = status
+    neutral = [(n, p_, st) for (n, p_), st in last.items()]
     nrows = []
     for name, prop, status in neutral:
         nrows.append("| %s | %s | %s | %s |" % (name, ntr.get(name, {}).get("what", "").replace("|", "/"), prop, status))
